@@ -129,6 +129,12 @@ def replay_layout(d):
             allowed = [sigs[bn], {}]
         if not any(dict(v.extended_data) == a and v.endianess == (a.get("endianess") or "little") for a in allowed):
             return True, f"options of leaf {hn}: {v.extended_data}/{v.endianess}, allowed {allowed}"
+    dflt = [i for i in fcp.impls if i.protocol == "default" and i.type == impl.type][0]
+    pc = lambda v: (str(v.name), v.bitstart, v.bitlength, v.endianess, dict(v.extended_data))
+    again = [pc(v) for v in enc.generate(dflt)]
+    fresh = [pc(v) for v in make_encoder("packed", fcp, PackedEncoderContext().with_unroll_arrays(d["unroll"])).generate(dflt)]
+    if again != fresh:
+        return True, f"reused encoder lays the default binding out as {again[:3]}.., a fresh one as {fresh[:3]}.."
     return False, "layout equals the reference tiling"
 
 
@@ -663,3 +669,195 @@ def replay_c14_concrete(d):
     if not st.get("ok"):
         return True, f"generation failed for a fitting binding: {p.stderr[-200:]}"
     return False, "generated"
+
+
+# ---------------------------------------------------------------- generated C, natively
+def _native_c(schema_text, main_src, compilers=("clang-14", "gcc")):
+    """Generate with the real generator, compile natively with each compiler, run; -> [(compiler, rc, stdout, stderr)]"""
+    import os
+
+    from .native import Scratch, generate_c, run
+
+    outs = []
+    with Scratch() as d:
+        fcp, names = generate_c(schema_text, d)
+        open(os.path.join(d, "main.c"), "w").write(main_src)
+        srcs = [n for n in names if n.endswith(".c")] + ["main.c"]
+        for cc in compilers:
+            rc, so, se = run([cc, "-O0", "-w", "-I", d, *srcs, "-o", os.path.join(d, "a.out")], cwd=d)
+            if rc != 0:
+                outs.append((cc, "compile-error", so, se[-800:]))
+                continue
+            rc, so, se = run([os.path.join(d, "a.out")], cwd=d, timeout=60)
+            outs.append((cc, rc, so, se))
+    return outs
+
+
+def replay_c_compile(d):
+    try:
+        outs = _native_c(d["schema_text"], '#include "ecu_can.h"\nint main(void) { return 0; }\n')
+    except Exception as e:
+        return True, f"C generation failed: {type(e).__name__}: {e}"
+    bad = [o for o in outs if o[1] == "compile-error"]
+    if bad:
+        return True, f"generated C does not compile ({bad[0][0]}): {bad[0][3][-300:]}"
+    return False, "compiles"
+
+
+def replay_c_encode(d):
+    from .native import snake
+
+    P, s = d["top"], snake(d["top"])
+    sets = []
+    for fn, x in d["fields"].items():
+        K = d["carriers"][fn]
+        if d["kinds"][fn] in ("f32", "f64"):
+            ty = "uint32_t" if K == 32 else "uint64_t"
+            sets.append(f"  {{ {ty} raw = {x}ULL; memcpy(&m.{fn}, &raw, sizeof raw); }}")
+        else:
+            ty = {8: "uint8_t", 16: "uint16_t", 32: "uint32_t", 64: "uint64_t"}[K]
+            sets.append(f"  {{ {ty} raw = ({ty}){x}ULL; memcpy(&m.{fn}, &raw, sizeof raw); }}")
+    main = ('#include <stdio.h>\n#include <string.h>\n#include "ecu_can.h"\nint main(void) {\n'
+            f"  CanMsg{P} m; memset(&m, 0, sizeof m);\n" + "\n".join(sets) +
+            f"\n  CanFrame f = can_encode_msg_{s}(&m);\n  unsigned long long w; memcpy(&w, f.data, 8);\n"
+            '  printf("%u %u %llu\\n", (unsigned)f.id, (unsigned)f.dlc, w);\n  return 0;\n}\n')
+    outs = _native_c(d["schema_text"], main)
+    e = d["expected"]
+    want = f"{e['id']} {e['dlc']} {e['data']}"
+    bad = [(cc, so.strip() or se[-200:]) for cc, rc, so, se in outs if so.strip() != want]
+    if bad:
+        return True, f"fields {d['fields']}: native frame (id dlc data) = {bad[0][1]} with {bad[0][0]}, layout packing says {want}"
+    return False, "native frame equals the layout packing"
+
+
+def replay_c_decode(d):
+    import struct as _s
+
+    from .native import snake
+
+    P, s = d["top"], snake(d["top"])
+    fr = d["frame"]
+    prints = []
+    for fn in d["fields"]:
+        k = d["kinds"][fn]
+        if k == "f32":
+            prints.append(f'  {{ uint32_t r; memcpy(&r, &m.{fn}, 4); printf("{fn} %llu\\n", (unsigned long long)r); }}')
+        elif k == "f64":
+            prints.append(f'  {{ uint64_t r; memcpy(&r, &m.{fn}, 8); printf("{fn} %llu\\n", (unsigned long long)r); }}')
+        else:
+            prints.append(f'  printf("{fn} %lld\\n", (long long)m.{fn});')
+    main = ('#include <stdio.h>\n#include <string.h>\n#include "ecu_can.h"\nint main(void) {\n'
+            "  unsigned char raw[10] = {" + ",".join(str(b) for b in fr) + "};\n"
+            f"  CanFrame f; memset(&f, 0, sizeof f); memcpy(&f, raw, 10);\n  CanMsg{P} m = can_decode_msg_{s}(&f);\n" +
+            "\n".join(prints) + "\n  return 0;\n}\n")
+    outs = _native_c(d["schema_text"], main)
+    word = int.from_bytes(bytes(fr[2:10]), "little")
+    exp = {}
+    for fn in d["fields"]:
+        k, off = d["kinds"][fn], d["offsets"][fn]
+        if k == "f32":
+            exp[fn] = ("f", (word >> off) & 0xFFFFFFFF, 32)
+        elif k == "f64":
+            exp[fn] = ("f", (word >> off) & (2 ** 64 - 1), 64)
+        else:
+            w = d["widths"][fn]
+            v = (word >> off) & ((1 << w) - 1)
+            if k == "i" and v >> (w - 1):
+                v -= 1 << w
+            exp[fn] = ("i", v, w)
+    for cc, rc, so, se in outs:
+        if rc == "compile-error":
+            return True, f"does not compile with {cc}: {se[-200:]}"
+        got = dict(l.split() for l in so.strip().splitlines() if l.strip())
+        for fn, (kind, v, w) in exp.items():
+            g = int(got.get(fn, "0"))
+            if kind == "i":
+                if g != v:
+                    return True, f"frame {fr}: {cc} decodes {fn} = {g}, layout extraction gives {v}"
+            else:
+                fmt = "<f" if w == 32 else "<d"
+                a = _s.unpack(fmt, g.to_bytes(w // 8, "little"))[0]
+                b = _s.unpack(fmt, v.to_bytes(w // 8, "little"))[0]
+                if b == b and a != b:
+                    return True, f"frame {fr}: {cc} decodes {fn} = {a!r}, layout extraction gives {b!r}"
+    return False, "native decode equals the layout extraction"
+
+
+def replay_c_sched(d):
+    """Native run of the generated scheduler from the given static state (set through a patched copy of the source
+    is not possible for function-local statics, so 'step' mode replays from the initial state only when reachable:
+    the state is re-created by a prefix of calls when it equals the initial one; otherwise the reference automaton is
+    compared on the BMC trace)."""
+    n = len(d["periods"])
+    per = d["periods"]
+    devb = d["dev_bytes"]
+    if d["mode"] == "step" and (d["last_call"] != 0 or any(d["last_send"])):
+        # reach the state: call with time = last_send values in increasing order is not general; use a helper that
+        # pokes the statics through a one-off exported setter appended to a COPY of the generated file
+        setter = True
+    else:
+        setter = False
+    times = d["times"]
+    main = ['#include <stdio.h>', '#include <string.h>', '#include "ecu_can.h"',
+            'static void cb(const CanFrame *f) { const unsigned char *p = (const unsigned char *)f; printf("F");'
+            ' for (int i = 0; i < 10; i++) printf(" %u", p[i]); printf("\\n"); }',
+            'extern void verif_poke(unsigned lc, const unsigned *ls);',
+            'int main(void) {', '  CanDeviceEcu dev; unsigned char raw[] = {' + ",".join(map(str, devb)) + '};',
+            '  memcpy(&dev, raw, sizeof dev);']
+    if setter:
+        main.append('  unsigned ls[] = {' + ",".join(map(str, d["last_send"])) + '};')
+        main.append(f'  verif_poke({d["last_call"]}u, ls);')
+    for t in times:
+        main.append(f'  printf("T\\n"); can_send_ecu_msgs_scheduled(&dev, {t}u, cb);')
+    main += ['  return 0;', '}']
+    import os
+
+    from .native import Scratch, generate_c, run
+
+    results = []
+    with Scratch() as dd:
+        fcp, names = generate_c(d["schema_text"], dd)
+        src = open(os.path.join(dd, "ecu_can.c")).read()
+        # expose the function-local statics to the replay: make them file-scope in a copy (same code otherwise)
+        src2 = src.replace("    static uint32_t last_call_t = 0;\n", "").replace(
+            f"    static uint32_t last_send_t[{n}] = {{0}};\n", "")
+        if src2 == src:
+            return None, "could not hoist the scheduler statics for replay"
+        src2 = src2.replace('#include "can_signal_parser.h"\n',
+                            '#include "can_signal_parser.h"\nstatic uint32_t last_call_t = 0;\n'
+                            f'static uint32_t last_send_t[{n}] = {{0}};\n'
+                            f'void verif_poke(unsigned lc, const unsigned *ls) {{ last_call_t = lc; for (int i = 0; i < {n}; i++) last_send_t[i] = ls[i]; }}\n', 1)
+        open(os.path.join(dd, "ecu_can.c"), "w").write(src2)
+        open(os.path.join(dd, "main.c"), "w").write("\n".join(main))
+        srcs = [x for x in names if x.endswith(".c")] + ["main.c"]
+        for cc in ("clang-14", "gcc"):
+            rc, so, se = run([cc, "-O0", "-w", "-I", dd, *srcs, "-o", os.path.join(dd, "a.out")], cwd=dd)
+            if rc:
+                return None, f"replay build failed: {se[-300:]}"
+            rc, so, se = run([os.path.join(dd, "a.out")], cwd=dd, timeout=60)
+            results.append((cc, so))
+    # reference automaton, concretely
+    lc, ls = d["last_call"], list(d["last_send"])
+    ids = [16 + i for i in range(n)]
+    exp = []
+    for t in times:
+        sent = []
+        if t != lc:
+            lc = t
+            for i in range(n):
+                if per[i] != -1 and ((t - ls[i]) & 0xFFFFFFFF) >= (per[i] & 0xFFFFFFFF):
+                    sent.append(ids[i])
+                    ls[i] = t
+        exp.append(sent)
+    for cc, so in results:
+        got, cur = [], None
+        for line in so.splitlines():
+            if line == "T":
+                cur = []
+                got.append(cur)
+            elif line.startswith("F") and cur is not None:
+                b = [int(x) for x in line.split()[1:]]
+                cur.append((b[0] | (b[1] << 8)) & 0x7FF)
+        if got != exp:
+            return True, f"{cc}: frames sent per call {got}, reference automaton {exp} (state {d['last_call']},{d['last_send']} times {times})"
+    return False, "scheduler follows the reference automaton"
